@@ -30,6 +30,7 @@ type admCase struct {
 	Order    string  `json:"order"`
 	Decoy    string  `json:"decoy"`
 	Epub     epubCfg `json:"epub"`
+	Tgt      string  `json:"tgt"`
 	Expected struct {
 		Detect string `json:"detect"`
 		Open   string `json:"open"`
@@ -53,6 +54,20 @@ func c20Bytes(c *admCase) ([]byte, error) {
 		ms = odtMembers()
 	case "epub":
 		ms = epubMembers(c.Epub)
+	}
+	// spelling of the main part in the package relationships (_rels/.rels)
+	if c.Tgt == "abs" || c.Tgt == "dot" {
+		for i := range ms {
+			if ms[i].name == "_rels/.rels" {
+				pre := "/"
+				if c.Tgt == "dot" {
+					pre = "./"
+				}
+				for _, dir := range []string{"word/", "xl/", "ppt/"} {
+					ms[i].data = strings.Replace(ms[i].data, `Target="`+dir, `Target="`+pre+dir, 1)
+				}
+			}
+		}
 	}
 	// the "mimetype" member of ODF / EPUB stays first (required by both standards); everything else may move
 	fixed := 0
@@ -106,8 +121,8 @@ func c20Case(i int, raw []byte) Result {
 	// detection from content
 	det, derr := format.DetectFromReader(bytes.NewReader(data), int64(len(data)))
 	if derr != nil || fmtName(det) != c.Expected.Detect {
-		return mk("detect", fmt.Sprintf("%s:order=%s:decoy=%s", c.Kind, c.Order, c.Decoy),
-			fmt.Sprintf("DetectFromReader names %s (err %v) for a valid %s document (member order %s, decoy %s)", det, derr, c.Kind, c.Order, c.Decoy), fmtName(det))
+		return mk("detect", fmt.Sprintf("%s:order=%s:decoy=%s:tgt=%s", c.Kind, c.Order, c.Decoy, c.Tgt),
+			fmt.Sprintf("DetectFromReader names %s (err %v) for a valid %s document (member order %s, decoy %s, main part named %s)", det, derr, c.Kind, c.Order, c.Decoy, c.Tgt), fmtName(det))
 	}
 	// opening under the chosen name
 	ext := c.Ext
@@ -144,7 +159,7 @@ func c20Case(i int, raw []byte) Result {
 	r.Events = []Event{ev}
 	switch c.Expected.Open {
 	case "opens":
-		feat := fmt.Sprintf("%s:order=%s:decoy=%s:case=%s", c.Kind, c.Order, c.Decoy, c.Ecase)
+		feat := fmt.Sprintf("%s:order=%s:decoy=%s:case=%s:tgt=%s", c.Kind, c.Order, c.Decoy, c.Ecase, c.Tgt)
 		if c.Mode == "drm" {
 			feat = fmt.Sprintf("drm:%s:%v", c.Epub.Algo, c.Epub.Enc)
 		}
